@@ -10,21 +10,24 @@ import (
 	"testing"
 
 	mocker "github.com/tencent/goom"
+	"github.com/tencent/goom/internal/patch"
 	"github.com/tencent/goom/internal/zzverif/c06/w"
 	"github.com/tencent/goom/internal/zzverif/vh"
 )
 
 // ent is one declared method of the corpus (generated registry: reg_gen_test.go).
 type ent struct {
-	ID   int
-	Pkg  string // package path
-	T    string // reflect name of the receiver type
-	Ptr  bool
-	M    string
-	K    int64 // the method's own constant
-	NP   int   // ordinary parameters
-	Call func(inst int) int64
-	Mock func(b *mocker.Builder, via, pkg, raw, m string, k int)
+	ID      int
+	Pkg     string // package path
+	T       string // reflect name of the receiver type
+	Ptr     bool
+	M       string
+	K       int64 // the method's own constant
+	NP      int   // ordinary parameters
+	Call    func(inst int) int64
+	Look    func(b *mocker.Builder, via, pkg, raw, m, tmpl string) interface{} // the lookup through one API path
+	Cb      func(via string, k int) interface{}                                // typed callback number k
+	StandIn func(via string) interface{}                                       // typed stand-in for As(..)
 }
 
 // wireBase is what '@' abbreviates in the operation stream.
@@ -42,33 +45,52 @@ func expect(e *ent) int64 {
 	return v
 }
 
-// snapshot calls every method of every type on three instances. Returns per entry: -1 original, k>=0 mocked by
-// callback k on all instances, -2 anything else (mixed, wrong value); recv/args flags for mocked entries.
-func snapshot() (state []int, recvOK, argsOK []bool) {
-	state = make([]int, len(registry))
-	recvOK = make([]bool, len(registry))
-	argsOK = make([]bool, len(registry))
+// callOnce calls entry e on one instance: "o" original, "k<k>" callback k ran, "s<v>" another value came back
+// (a Return/When stub), "p" the call panicked.
+func callOnce(e *ent, inst int) (tok string, recvOK, argsOK bool) {
+	defer func() {
+		if r := recover(); r != nil {
+			tok = "p"
+		}
+	}()
+	w.LastK = -1
+	r := e.Call(inst)
+	switch {
+	case w.LastK >= 0 && r == w.Sentinel:
+		return "k" + strconv.Itoa(w.LastK), w.LastRecvOK, w.LastArgsOK
+	case w.LastK < 0 && r == expect(e):
+		return "o", true, true
+	case w.LastK < 0:
+		return "s" + strconv.FormatInt(r, 10), true, true
+	}
+	return "x", true, true
+}
+
+// snapshot calls every method of every type on three instances; returns the non-original entries as hit tokens.
+func snapshot() (hits []string) {
 	for i := range registry {
 		e := &registry[i]
-		st, rok, aok := -3, true, true
+		var t [3]string
+		rok, aok := true, true
 		for inst := 0; inst < 3; inst++ {
-			w.LastK = -1
-			r := e.Call(inst)
-			cur := -2
-			if w.LastK >= 0 && r == w.Sentinel {
-				cur = w.LastK
-				rok = rok && w.LastRecvOK
-				aok = aok && w.LastArgsOK
-			} else if w.LastK < 0 && r == expect(e) {
-				cur = -1
-			}
-			if st == -3 {
-				st = cur
-			} else if st != cur {
-				st = -2
-			}
+			var r, a bool
+			t[inst], r, a = callOnce(e, inst)
+			rok, aok = rok && r, aok && a
 		}
-		state[i], recvOK[i], argsOK[i] = st, rok, aok
+		switch {
+		case t[0] == "o" && t[1] == "o" && t[2] == "o":
+		case t[0][0] == 'k' && t[0] == t[1] && t[1] == t[2]:
+			r, a := "r+", "a+"
+			if !rok {
+				r = "r-"
+			}
+			if !aok {
+				a = "a-"
+			}
+			hits = append(hits, fmt.Sprintf("%d:%s:%s:%s", i, t[0][1:], r, a))
+		default:
+			hits = append(hits, fmt.Sprintf("%d:%s/%s/%s", i, t[0], t[1], t[2]))
+		}
 	}
 	return
 }
@@ -77,8 +99,8 @@ func classify(msg string) string {
 	const pfx = "proxy func name error: "
 	const sfx = ": function symbol not found"
 	switch {
-	case strings.HasPrefix(msg, pfx) && strings.HasSuffix(msg, sfx):
-		return "nf:" + msg[len(pfx):len(msg)-len(sfx)]
+	case strings.HasSuffix(msg, sfx):
+		return "nf:" + strings.TrimPrefix(msg[:len(msg)-len(sfx)], pfx)
 	case strings.HasPrefix(msg, "method ") && strings.Contains(msg, " not found on "):
 		return "err:nomethod"
 	case strings.HasPrefix(msg, "proxy method error: unknown method"):
@@ -97,67 +119,167 @@ func try(f func()) (res string) {
 	return "ok"
 }
 
-func runHist(steps []string) string {
-	before, _, _ := snapshot()
-	for i, s := range before {
-		if s != -1 {
-			return fmt.Sprintf("before=dirty:%d", i)
+type handle struct {
+	h   interface{}
+	e   *ent
+	via string
+}
+
+func stdArgs(np int, std bool) []interface{} {
+	x, s := int64(5), "zz"
+	if std {
+		x, s = w.WantX, w.WantS
+	}
+	if np == 1 {
+		return []interface{}{x}
+	}
+	return []interface{}{x, s}
+}
+
+// lookupTok parses `SM~pkg~T~ptr~m~eid[~tmpl]` / `SX~..` / `ES~pkg~raw~m~eid` / `EC~..` and performs the lookup.
+func lookupTok(b *mocker.Builder, f []string) (hd handle, res string) {
+	var eidS, pkg, raw, m, tmpl string
+	switch {
+	case (len(f) == 6 || len(f) == 7) && (f[0] == "SM" || f[0] == "SX"):
+		pkg, m, eidS, tmpl = f[1], f[4], f[5], "z"
+		if len(f) == 7 {
+			tmpl = f[6]
 		}
+	case len(f) == 5 && (f[0] == "ES" || f[0] == "EC"):
+		pkg, raw, m, eidS = f[1], f[2], f[3], f[4]
+	default:
+		return hd, "bad-op"
+	}
+	eid, err := strconv.Atoi(eidS)
+	if err != nil || eid < 0 || eid >= len(registry) {
+		return hd, "bad-op"
+	}
+	e := &registry[eid]
+	if (f[0] == "SM" || f[0] == "SX") && (e.Pkg != f[1] || e.T != f[2] || e.Ptr != (f[3] == "1")) {
+		return hd, "err:inconsistent-op"
+	}
+	if f[0] == "EC" && b.PkgName() != pkg {
+		return hd, "err:curpkg:" + b.PkgName()
+	}
+	hd = handle{e: e, via: f[0]}
+	res = try(func() { hd.h = e.Look(b, f[0], pkg, raw, m, tmpl) })
+	return
+}
+
+func applyCb(hd handle, k int) string {
+	cb := hd.e.Cb(hd.via, k)
+	return try(func() {
+		switch h := hd.h.(type) {
+		case mocker.ExportedMocker:
+			h.Apply(cb)
+		case mocker.UnExportedMocker:
+			h.Apply(cb)
+		default:
+			panic("probe: no handle")
+		}
+	})
+}
+
+func atoi64(s string) int64 {
+	v, err := strconv.ParseInt(s, 10, 64)
+	if err != nil {
+		panic("bad number " + s)
+	}
+	return v
+}
+
+func runHist(steps []string) string {
+	if hits := snapshot(); len(hits) != 0 {
+		patch.UnpatchAll()
+		return "before=dirty:" + hits[0]
 	}
 	b := mocker.Create()
+	handles := map[string]handle{}
 	var res []string
 	for k, tok := range steps {
 		f := strings.Split(tok, "~")
+		get := func() (handle, bool) {
+			hd, ok := handles[f[1]]
+			if !ok || hd.h == nil {
+				res = append(res, "err:nohandle")
+				return hd, false
+			}
+			return hd, true
+		}
 		switch {
 		case len(f) == 1 && f[0] == "R":
 			res = append(res, try(func() { b.Reset() }))
-		case len(f) == 6 && (f[0] == "SM" || f[0] == "SX"):
-			eid, err := strconv.Atoi(f[5])
-			if err != nil || eid < 0 || eid >= len(registry) {
-				return "bad-op"
+		case f[0] == "L" && len(f) > 2:
+			hd, r := lookupTok(b, f[2:])
+			if r == "bad-op" || strings.HasPrefix(r, "err:inconsistent") || strings.HasPrefix(r, "err:curpkg") {
+				return r
 			}
-			e := &registry[eid]
-			if e.Pkg != f[1] || e.T != f[2] || e.Ptr != (f[3] == "1") {
-				return "err:inconsistent-op"
+			if r == "ok" {
+				handles[f[1]] = hd
 			}
-			res = append(res, try(func() { e.Mock(b, f[0], f[1], "", f[4], k) }))
-		case len(f) == 5 && (f[0] == "ES" || f[0] == "EC"):
-			eid, err := strconv.Atoi(f[4])
-			if err != nil || eid < 0 || eid >= len(registry) {
-				return "bad-op"
+			res = append(res, r)
+		case f[0] == "A" && len(f) == 2:
+			if hd, ok := get(); ok {
+				res = append(res, applyCb(hd, k))
 			}
-			if f[0] == "EC" && b.PkgName() != f[1] {
-				return "err:curpkg:" + b.PkgName()
+		case f[0] == "C" && len(f) == 2:
+			if hd, ok := get(); ok {
+				res = append(res, try(func() { hd.h.(mocker.Mocker).Cancel() }))
 			}
-			res = append(res, try(func() { registry[eid].Mock(b, f[0], f[1], f[2], f[3], k) }))
+		case (f[0] == "T" && len(f) == 3) || (f[0] == "S" && len(f) == 4):
+			if hd, ok := get(); ok {
+				var vals []interface{}
+				for _, s := range f[2:] {
+					vals = append(vals, atoi64(s))
+				}
+				res = append(res, try(func() {
+					var em mocker.ExportedMocker
+					switch h := hd.h.(type) {
+					case mocker.ExportedMocker:
+						em = h
+					case mocker.UnExportedMocker:
+						em = h.As(hd.e.StandIn(hd.via))
+					}
+					if f[0] == "T" {
+						em.Return(vals...)
+					} else {
+						em.Returns(vals...)
+					}
+				}))
+			}
+		case (f[0] == "W" && len(f) == 4) || (f[0] == "SW" && len(f) == 6):
+			if hd, ok := get(); ok {
+				em, isM := hd.h.(mocker.ExportedMocker)
+				if !isM || hd.e.NP == 0 {
+					res = append(res, "err:notmethod")
+					break
+				}
+				res = append(res, try(func() {
+					if f[0] == "W" {
+						em.When(stdArgs(hd.e.NP, f[2] == "1")...).Return(atoi64(f[3]))
+					} else {
+						em.Returns(atoi64(f[2]), atoi64(f[3])).When(stdArgs(hd.e.NP, f[4] == "1")...).Return(atoi64(f[5]))
+					}
+				}))
+			}
 		default:
-			return "bad-op"
+			hd, r := lookupTok(b, f)
+			if r != "ok" {
+				if r == "bad-op" || strings.HasPrefix(r, "err:inconsistent") || strings.HasPrefix(r, "err:curpkg") {
+					return r
+				}
+				res = append(res, r)
+				break
+			}
+			res = append(res, applyCb(hd, k))
 		}
 	}
-	during, rok, aok := snapshot()
-	var hits []string
-	for i, s := range during {
-		switch {
-		case s >= 0:
-			r, a := "r+", "a+"
-			if !rok[i] {
-				r = "r-"
-			}
-			if !aok[i] {
-				a = "a-"
-			}
-			hits = append(hits, fmt.Sprintf("%d:%d:%s:%s", i, s, r, a))
-		case s == -2:
-			hits = append(hits, fmt.Sprintf("%d:corrupt", i))
-		}
-	}
-	b.Reset()
-	after, _, _ := snapshot()
+	hits := snapshot()
+	rr := try(func() { b.Reset() })
 	clean := "clean"
-	for _, s := range after {
-		if s != -1 {
-			clean = "dirty"
-		}
+	if after := snapshot(); len(after) != 0 || rr != "ok" {
+		clean = "dirty"
+		patch.UnpatchAll() // do not let a leaked patch poison the following histories
 	}
 	return "r=" + strings.Join(res, ",") + " hit=" + strings.Join(hits, ",") + " after=" + clean
 }
